@@ -19,6 +19,7 @@ use qvlib::{catch, hex, json, panic_key, unhex, Ctx, Local, Value};
 
 use crate::gen;
 use crate::refmodel::{self as rm, Exp};
+use crate::watch;
 
 #[derive(Clone, Copy, Debug, PartialEq, Eq, PartialOrd, Ord)]
 pub enum Op {
@@ -104,6 +105,7 @@ pub struct Run {
     before: usize,
     after: usize,
     at_eom_after: bool,
+    same_state: bool,
 }
 
 fn dbg<E: std::fmt::Debug>(e: E) -> String {
@@ -174,7 +176,18 @@ fn run_path(msg: &[u8], path: &[(Op, usize)], op: Op) -> Result<Result<Run, Stri
         let before = r.message_to_cursor().len();
         let out = apply(&mut r, op);
         let after = r.message_to_cursor().len();
-        Ok(Run { out, before, after, at_eom_after: r.at_eom() })
+        // An operation that left the cursor where it was must have left the
+        // whole reader as it was: compare (derived Eq: buffer, cursor, mark)
+        // with a second reader brought to the same state.
+        let mut same_state = true;
+        if after == before {
+            let mut r2 = Reader::try_from(msg).map_err(dbg)?;
+            for (p, _) in path {
+                let _ = apply(&mut r2, *p);
+            }
+            same_state = r == r2;
+        }
+        Ok(Run { out, before, after, at_eom_after: r.at_eom(), same_state })
     })
 }
 
@@ -317,6 +330,9 @@ fn check(msg: &[u8], op: Op, run: &Run) -> Vec<(String, String)> {
         let key = if failed { format!("{opn}:cursor-moved-on-failure") } else { format!("{opn}:wrong-cursor") };
         vs.add(&key, format!("cursor {} -> {}, expected {}", cur, run.after, must_after));
     }
+    if !run.same_state {
+        vs.add(&format!("{opn}:reader-state-changed-without-moving"), "reader != a fresh reader replayed to the same cursor".to_string());
+    }
     if run.at_eom_after != (run.after >= msg.len()) {
         vs.add("at_eom:wrong", format!("at_eom()={} at cursor {} of {}", run.at_eom_after, run.after, msg.len()));
     }
@@ -416,6 +432,7 @@ fn check_state(l: &mut Local, fam: &str, msg: &[u8], path: &[(Op, usize)], cur: 
 pub fn explore(l: &mut Local, fam: &str, msg: &[u8], st: &mut Stats) -> u64 {
     let mut nviol = 0u64;
     st.messages += 1;
+    watch::note("c15", msg, fam.as_bytes(), [0; 4]);
     if msg.len() < 12 {
         l.tick();
         match catch(|| Reader::try_from(msg).map(|_| ()).map_err(dbg)) {
@@ -429,6 +446,7 @@ pub fn explore(l: &mut Local, fam: &str, msg: &[u8], st: &mut Stats) -> u64 {
                 l.violation(&format!("Reader::try_from:{}", panic_key(&p)), json!({"msg": hex(msg), "family": fam, "panic": p}))
             }
         }
+        watch::idle();
         return nviol;
     }
     // cursor -> path that first reached it
@@ -488,6 +506,7 @@ pub fn explore(l: &mut Local, fam: &str, msg: &[u8], st: &mut Stats) -> u64 {
         }
     }
     st.max_states = st.max_states.max(queue.len() as u64);
+    watch::idle();
     nviol
 }
 
@@ -533,10 +552,6 @@ impl Base {
     }
 }
 
-fn set16(b: &mut [u8], off: usize, v: u16) {
-    b[off..off + 2].copy_from_slice(&v.to_be_bytes());
-}
-
 const KNOWN_TYPES: [u16; 22] = [1, 2, 3, 4, 5, 6, 7, 8, 9, 10, 11, 12, 13, 14, 15, 16, 28, 33, 41, 250, 65280, 255];
 
 /// Replacement values for one field: (description, new octets of the field).
@@ -545,7 +560,7 @@ fn field_values(t: &Template, fi: usize, reduced: bool) -> Vec<(String, Vec<u8>)
     let b = &t.bytes;
     let len = b.len();
     let mut out: Vec<(String, Vec<u8>)> = Vec::new();
-    let mut push16 = |vals: &[u32], orig: u16, out: &mut Vec<(String, Vec<u8>)>| {
+    let push16 = |vals: &[u32], orig: u16, out: &mut Vec<(String, Vec<u8>)>| {
         let mut vs: Vec<u16> = vals.iter().filter(|v| **v <= 0xffff).map(|v| *v as u16).filter(|v| *v != orig).collect();
         vs.sort();
         vs.dedup();
@@ -673,7 +688,7 @@ fn bases(ctx: &Ctx) -> Vec<Base> {
         // (c) thorough: every pair of field mutations over a reduced value
         // menu (no truncation)
         if !quick && t.bytes.len() <= 400 {
-            let reduced = t.bytes.len() > 64;
+            let reduced = t.bytes.len() > 128;
             let vals: Vec<Vec<(String, Vec<u8>)>> = (0..t.fields.len()).map(|fi| field_values(t, fi, reduced)).collect();
             for i in 0..t.fields.len() {
                 for j in i + 1..t.fields.len() {
@@ -758,7 +773,12 @@ fn raw_records(l: &mut Local, n: usize, shard: usize, st: &mut Stats) {
 
 pub const RAW_RECORD_SHARDS: usize = 4 * 23;
 
+fn hang_case(n: &watch::Noted) -> (String, Value) {
+    ("reader:does-not-terminate".to_string(), json!({"msg": hex(&n.a), "family": String::from_utf8_lossy(&n.b), "op": "some reader operation on this message did not return"}))
+}
+
 pub fn run(ctx: Ctx) -> ! {
+    watch::start(&ctx, hang_case, |c| finish(c, &[]));
     if let Some(case) = ctx.replay_case() {
         let msg = unhex(case.get("msg").and_then(|v| v.as_str()).unwrap_or(""));
         let fam = case.get("family").and_then(|v| v.as_str()).unwrap_or("replay").to_string();
@@ -843,7 +863,7 @@ fn finish(ctx: Ctx, stats: &[Stats]) -> ! {
     ctx.assume("a pointer inside an SRV target, CH A name or TSIG algorithm name may be rejected or decompressed");
     ctx.finish(
         "model_checking",
-        "per message: complete BFS over reader cursor states (state = message_to_cursor().len(); every state re-created by replaying its path on a fresh Reader) with operations {read_question, skip_question, read_rr, skip_rr, peek_rr then drop | skip | parse | owner+parse | owner,owner,skip} plus header accessors/at_eom/message_to_cursor in every state. Messages: (A) 52 request templates + 6 response templates with every RFC 1035 type and compressed RDATA, each at every truncation length, with every single-field mutation (counts, label lengths, pointers, RDLENGTH, TYPE, CLASS, TTL, MAC/other/option lengths, record removed/duplicated) at every truncation length after the field (quick: messages > 400 octets only 24 lengths after the field and the last 24), thorough: all pairs of field mutations (full value menu for templates <= 64 octets, reduced menu up to 400 octets); (B) all 65536 flag words; (C) fixed header + every body of length <= 5 (thorough 6) over 11 significant octets; (D) header + one record: 4 owners x 23 class/types x every RDATA of length <= 3 (thorough 4) over 8 octets x RDLENGTH exact/-1/+1. Oracle: independent RFC 1035 decoder (qvlib::wire) at the same cursor: no panic; failure leaves the cursor unchanged; success => every field equal incl. decompressed RDATA and TTL clamped per RFC 2181; skip/peek modelled as first-chunk + fixed fields + RDLENGTH bound",
+        "per message: complete BFS over reader cursor states (state = message_to_cursor().len(); every state re-created by replaying its path on a fresh Reader) with operations {read_question, skip_question, read_rr, skip_rr, peek_rr then drop | skip | parse | owner+parse | owner,owner,skip} plus header accessors/at_eom/message_to_cursor in every state. Messages: (A) 52 request templates + 6 response templates with every RFC 1035 type and compressed RDATA, each at every truncation length, with every single-field mutation (counts, label lengths, pointers, RDLENGTH, TYPE, CLASS, TTL, MAC/other/option lengths, record removed/duplicated) at every truncation length after the field (quick: messages > 400 octets only 24 lengths after the field and the last 24), thorough: all pairs of field mutations (full value menu for templates <= 128 octets, reduced menu up to 400 octets); (B) all 65536 flag words; (C) fixed header + every body of length <= 5 (thorough 6) over 11 significant octets; (D) header + one record: 4 owners x 23 class/types x every RDATA of length <= 3 (thorough 4) over 8 octets x RDLENGTH exact/-1/+1. Oracle: independent RFC 1035 decoder (qvlib::wire) at the same cursor: no panic, no hang (watchdog); failure leaves the cursor unchanged and the reader equal (derived Eq) to a fresh reader replayed to the same state; success => every field equal incl. decompressed RDATA and TTL clamped per RFC 2181; skip/peek modelled as first-chunk + fixed fields + RDLENGTH bound",
         true,
     )
 }
